@@ -142,8 +142,11 @@ class World:
                 v = prog["vars"][op["var"]]
                 value = _pyvalue(v["kind"], op["value"])
                 modn = ir.modname(prog, v["mod"])
-                info["proc"].call({"cmd": "mutate", "module": modn, "var": op["var"], "value": value})
-                info["mutations"].append((modn, op["var"], value))
+                inplace = bool(op.get("inplace")) and v["kind"] in ("list", "dict")
+                info["proc"].call({"cmd": "mutate", "module": modn, "var": op["var"], "value": value, "inplace": inplace})
+                info["mutations"].append((modn, op["var"], value, inplace))
+                if inplace:
+                    self.probe("inplace_mutation")
                 # `from m import V` readers keep the old binding: python semantics, the reference shim sees the same
                 self.log.append([i, "mutate", op["var"], repr(value)])
         elif k == "chdir":
